@@ -890,7 +890,12 @@ int disasm_msp430(
     n++;
   }
 
-  if (table_msp430[n].instr == NULL) { strcpy(instruction, "???"); }
+  if (table_msp430[n].instr == NULL)
+  {
+    // Unknown opcode still takes up one 16 bit word.
+    strcpy(instruction, "???");
+    count += 2;
+  }
 
   if (prefix != 0xffff)
   {
